@@ -55,6 +55,10 @@ def systematic(tier: str) -> list[dict]:
         progs = [p for k, p in enumerate(progs) if k % 3 == 0]
     for p in progs:
         p["outs"] = {"out0": p["outs"]["out"]}
+    # (never thinned out: special values at chosen positions of each operand)
+    for p in P.fam_nan():
+        p["outs"] = {("out0" if k == "out" else k): v for k, v in p["outs"].items()}
+        progs.append(p)
     return progs
 
 
